@@ -80,6 +80,28 @@ func termUB(t *Term) uint64 {
 	return full
 }
 
+// watchHit: a watched cell is accessed; the watched mutex must be held (lockset discipline, checked on
+// every explored path). Engine-only clause: it cannot be replayed natively, so it is reported as an
+// inconclusive verdict (exit 2) naming the function, never as a pass.
+func (x *Exec) watchHit(addr *Value, kind string) {
+	if held, _ := x.ghost[heldKey(x.ghost["state1.watchMutex"])].(bool); held {
+		k, _ := x.ghost["state1.watchHits"].(uint64)
+		x.ghost["state1.watchHits"] = k + 1
+		return
+	}
+	where := "?"
+	if n := len(x.cstack); n > 0 {
+		where = x.cstack[n-1].String()
+	}
+	msg := "lock-discipline: " + kind + " of a field of the watched object in " + where + " while its mutex is not held"
+	for _, m := range x.inconclusive {
+		if m == msg {
+			return
+		}
+	}
+	x.inconclusive = append(x.inconclusive, msg)
+}
+
 func parkKey(p Value) string {
 	c, _ := p.(*Value)
 	return fmt.Sprintf("%s%p", ghostParked, c)
@@ -119,7 +141,11 @@ func init() {
 			if cnt > 64 {
 				x.end(endBudget, "more than 64 sync.Cond.Wait calls on one path")
 			}
+			// the environment (other goroutines, holding the lock themselves) runs: not watched
+			saved := x.watch
+			x.watch = nil
 			x.callValue(fr, 0, hook, nil)
+			x.watch = saved
 			return nil
 		}
 		n["(*sync.Cond).Broadcast"] = func(x *Exec, fr *frame, a []Value) Value {
@@ -136,6 +162,45 @@ func init() {
 			}
 			return nil
 		}
+		// ---- lock discipline (engine-only clause): verifWatch(obj, mu, on) watches every field cell of the
+		// struct *obj except the mutex/cond/metrics plumbing; an access while *mu is not held is reported.
+		for _, nm := range []string{"(*sync.Mutex).Lock", "(*sync.Mutex).Unlock"} {
+			nm := nm
+			n[nm] = func(x *Exec, fr *frame, a []Value) Value {
+				x.syncEvent(nm, a[0])
+				x.ghost[heldKey(a[0])] = strings.HasSuffix(nm, ".Lock")
+				return nil
+			}
+		}
+		H("verifWatch", func(x *Exec, fr *frame, a []Value) Value {
+			x.noSpec("verifWatch")
+			on, _ := a[2].(bool)
+			if !on {
+				x.watch = nil
+				return nil
+			}
+			obj, _ := a[0].(*Value)
+			st, ok := (*obj).(Struct)
+			if !ok {
+				x.unsupported("verifWatch: not a struct pointer")
+			}
+			x.watch = map[*Value]bool{}
+			for i := range st {
+				switch st[i].(type) {
+				case uint64, *Term, bool, []Value:
+					x.watch[&st[i]] = true
+				}
+			}
+			x.ghost["state1.watchMutex"] = a[1]
+			return nil
+		})
+
+		// verifWatchHits() int: number of watched accesses seen so far with the mutex held (vacuity guard).
+		H("verifWatchHits", func(x *Exec, fr *frame, a []Value) Value {
+			k, _ := x.ghost["state1.watchHits"].(uint64)
+			return k
+		})
+
 		// verifOnWait(hook func()): registers the environment step run by every following Cond.Wait.
 		H("verifOnWait", func(x *Exec, fr *frame, a []Value) Value {
 			x.noSpec("verifOnWait")
